@@ -12,10 +12,10 @@ T = {
  "C02": ("exploration", "boundary history + log tap: exact counting / numbering in one linear pass; budget-index enumeration",
          "Exact integer oracle over recorder + documented log line + nsamples-callback history; the budget-index enumeration makes the budget expire at every call of each reference run, so every budget test site trips.",
          "Point/evaluation numbers are the ones dfols logs; sampled configurations.", "4 C02"),
- "C03": ("exploration", "boundary history (bit-identity of residual vectors) at end of run and at every iteration (hook on the once-per-iteration model fit)",
+ "C03": ("exploration", "boundary history (bit-identity of residual vectors) at end of run and at every iteration (hook on the once-per-iteration model fit); budget-/exit-index and failpoint (injected LinAlgError / model-increase verdict) enumerations",
          "Identifies the returned / incumbent / saved point with a recorded evaluation by bit-equality of the residual vector and checks x, resid, obj against it, at end of run and at every iteration, over random runs plus budget-index and exit-index enumerations that end runs in every phase; coverage counted as (exit site, restart mode, averaging) triples.",
          "x tolerance 1e-12 relative (2 sqrt(p tol) with projections); residual vectors of distinct calls assumed bit-different.", "4 C03"),
- "C04": ("exploration", "boundary history: nothing better was ever observed (end of run, per run, per iteration); exit-index enumeration",
+ "C04": ("exploration", "boundary history: nothing better was ever observed (end of run, per run, per iteration); exit-/budget-index and failpoint (injected LinAlgError / model-increase verdict) enumerations; NaN-region objectives",
          "For deterministic un-averaged problems soln.obj is compared with every recomputed objective of the history, each run's result with the final one, and min(incumbent, saved) with the best so far at every iteration; the exit-index enumeration ends runs exactly when the point being abandoned is the best one.",
          "Objective recomputed by the harness from recorded residuals (+h); slack 1e-12 relative.", "4 C04"),
  "C05": ("exploration", "reference-model monitor: scipy lsq_linear (two methods cross-checked) on end-to-end default-budget runs",
@@ -33,7 +33,7 @@ T = {
  "C09": ("exploration", "history joined with logged dykstra calls (bit-identity of evaluated points with projection outputs)",
          "Every evaluated point of convex-constrained runs is matched bit-for-bit with the output of a logged projection call and checked against sqrt(p*tol) when that call stopped by its rule, exactly against the bounds always.",
          "Harness projectors are exact; tolerance is the one each call actually received.", "4 C09"),
- "C10": ("exploration", "result versus captured controller state and restart counters; exit-site capture; exit/budget-index enumerations",
+ "C10": ("exploration", "result versus captured controller state and restart counters; exit-site capture; exit/budget-index and failpoint enumerations",
          "Each message is tied to the numerical fact it claims using state captured by harness wrappers (controllers, solve_main calls, completed soft restarts), over random runs and the directed enumerations; coverage = distinct exit records that ended a run.",
          "Restart counts come from harness wrappers; D22 keyed finding.", "4 C10"),
  "C11": ("exploration", "independent least-squares fit of the recorded history at the evaluations named by jacmin_eval_nums",
